@@ -14,6 +14,7 @@ import AdaptaVerif.Lemmas.Vpsc
 import AdaptaVerif.Lemmas.VpscModel
 import AdaptaVerif.Lemmas.VpscFeasible
 import AdaptaVerif.Lemmas.VpscFlag
+import AdaptaVerif.Lemmas.VpscHistory
 namespace AdaptaVerif.Props.C01
 open AdaptaVerif.Check.Vpsc AdaptaVerif.Spec.Vpsc AdaptaVerif.Model.Vpsc
 open AdaptaVerif.Lemmas.Vpsc AdaptaVerif.Lemmas.VpscModel
@@ -268,6 +269,40 @@ theorem block_inv_merge_preserved_partial (st : St) (ci : Nat) (hinv : OffsetInv
         st.cons.all fun c => !c.active ||
           ((st.vars[c.l]!).block == (st.vars[c.r]!).block &&
            decide ((st.vars[c.r]!).offset - c.gap - (st.vars[c.l]!).offset = 0)))
+
+/-! ## history lemma (partial: every operation except `split`)
+
+Full statement (DESIGN.md "history lemma"): `addConstraint`, changing desired positions and every
+solver step preserve `block_inv`, so the theorems hold after any re-solve.  Proved: the offset
+invariant `OffsetInv` (active ⇒ same block ∧ tight in offsets) and the linking invariant `Linked`
+hold in the state built by the constructor and are preserved by `addConstraint`, by changing a desired
+position and by `merge`.  Missing: preservation by `split` (needs the spanning-tree part).
+Note that `satisfy_post`, `solve_post` and `flag_complete` above need no invariant at all: they hold
+for arbitrary states, hence after arbitrary histories. -/
+
+open AdaptaVerif.Lemmas.VpscHistory AdaptaVerif.Lemmas.VpscFlag in
+theorem history_inv_partial :
+    (∀ vs cs, OffsetInv (St.init vs cs) ∧ Linked (St.init vs cs)) ∧
+    (∀ st c, OffsetInv st ∧ Linked st → OffsetInv (st.addConstraint c) ∧ Linked (st.addConstraint c)) ∧
+    (∀ st i d, OffsetInv st ∧ Linked st → OffsetInv (st.setDesired i d) ∧ Linked (st.setDesired i d)) ∧
+    (∀ st ci, OffsetInv st ∧ Linked st →
+        (st.cons[ci]!).l < st.vars.size → (st.cons[ci]!).r < st.vars.size →
+        (st.vars[(st.cons[ci]!).l]!).block ≠ (st.vars[(st.cons[ci]!).r]!).block →
+        OffsetInv (st.mergeAcross ci).1 ∧ Linked (st.mergeAcross ci).1) :=
+  ⟨fun vs cs => ⟨init_offsetInv vs cs, init_linked vs cs⟩,
+   fun st c h => ⟨addConstraint_offsetInv st c h.1, addConstraint_linked st c h.2⟩,
+   fun st i d h => ⟨setDesired_offsetInv st i d h.1, setDesired_linked st i d h.2⟩,
+   fun st ci h hl hr hne => ⟨mergeAcross_offsetInv st ci h.1 hl hr hne, mergeAcross_linked st ci h.2⟩⟩
+
+open AdaptaVerif.Lemmas.VpscHistory AdaptaVerif.Lemmas.VpscFlag in
+/-- `flag_sound_path_partial` with the invariants `OffsetInv ∧ Linked` (which `history_inv_partial`
+    establishes for all split-free histories) in place of its raw hypotheses -/
+theorem flag_sound_path_inv_partial (scale : Nat → Rat) (hs : ∀ i, scale i ≠ 0)
+    (st : St) (bid fuel vi : Nat) (hinv : OffsetInv st ∧ Linked st) (hmem : st.cons[vi]! ∈ st.cons)
+    (hpath : (isActiveDirectedPathBetween st bid fuel (st.cons[vi]!).r (st.cons[vi]!).l).1 = true)
+    (hviol : st.uval (st.cons[vi]!).r - (st.cons[vi]!).gap - st.uval (st.cons[vi]!).l < 0) :
+    PosCycle (st.cons.toList.map toC) ∧ ¬ Feasible scale (st.cons.toList.map toC) :=
+  flag_sound_path_partial scale hs st bid fuel vi hinv.2.outsLinked (offsetInv_tight hinv.1) hmem hpath hviol
 
 /-- positions inside a block are determined by offsets: the slack of a constraint whose ends share a
     block is `offset_r − gap − offset_l`, whatever the block position -/
